@@ -29,6 +29,22 @@ class PyRaise(Exception):
         self.exc = exc  # a real exception instance (may carry symbolic args)
 
 
+def _surely_unequal(a, b):
+    """a == b is certainly False, decided without the solver (identity of stub objects without __eq__, different concrete parts)"""
+    if a is b:
+        return False
+    if isinstance(a, tuple) and isinstance(b, tuple):
+        return len(a) != len(b) or any(_surely_unequal(x, y) for x, y in zip(a, b))
+    if isinstance(a, SymObj) and isinstance(b, SymObj):
+        return getattr(a.cls, "__eq__", object.__eq__) is object.__eq__ and getattr(b.cls, "__eq__", object.__eq__) is object.__eq__
+    if is_symbolic(a) or is_symbolic(b):
+        return False
+    try:
+        return bool(a != b)
+    except Exception:
+        return False
+
+
 class StubAttributeError(AttributeError):
     """a symbolic instance of a real class was asked for an instance attribute its contract stub does not carry: real objects get every attribute in
     __init__, so this says the stub is incomplete for the code as it now is ("needs contract"), not that the code is wrong.  Still an AttributeError
@@ -495,6 +511,14 @@ class Interp:
                     if not owner:
                         owner.add(k0)
                     return None
+                if isinstance(owner, list) and name == "remove":
+                    # list.remove(x) where x IS an element of the list and every earlier element is certainly unequal to it
+                    for i, el in enumerate(owner):
+                        if el is k0:
+                            del owner[i]
+                            return None
+                        if not _surely_unequal(el, k0):
+                            break
                 raise Unsupported("container method %s with symbolic key" % name)
             return f(*args, **kwargs)
         raise Unsupported("builtin method %r with symbolic arguments" % (name,))
